@@ -10,6 +10,12 @@
 (* position within what it was given.  There is no Panic and no Hang       *)
 (* action: a real panic, a call that never returns or a position beyond    *)
 (* the boundary is not a behaviour of this specification.                  *)
+(*                                                                         *)
+(* prior: what the (pooled) parser object was used for before this call -- *)
+(* nothing, a message read to its end, or a message ABANDONED half way     *)
+(* (connection broken or caller stopped reading inside a chunk).  No       *)
+(* action reads it: outcome and reader position are functions of the       *)
+(* input of THIS call only.                                                *)
 (***************************************************************************)
 EXTENDS VerifLib
 CONSTANTS MaxN, MaxPieces
@@ -19,30 +25,32 @@ Comps(n) == IF n = 0 THEN { <<>> }
             ELSE UNION { { <<k>> \o c : c \in Comps(n - k) } : k \in 1..n }
 Splits(n) == { c \in Comps(n) : Len(c) <= MaxPieces }
 
-VARIABLES n, boundary, pieces, fed, pos, phase, outcome, returns
-vars == <<n, boundary, pieces, fed, pos, phase, outcome, returns>>
+Priors == {"none", "completed", "abandoned"}
+VARIABLES n, boundary, pieces, fed, pos, phase, outcome, returns, prior
+vars == <<n, boundary, pieces, fed, pos, phase, outcome, returns, prior>>
 
 Init == /\ n \in 0..MaxN /\ boundary \in 0..n /\ pieces \in Splits(n)
+        /\ prior \in Priors
         /\ fed = 0 /\ pos = 0 /\ phase = "idle" /\ outcome = "none" /\ returns = 0
 
 Call == /\ phase = "idle" /\ phase' = "running"
-        /\ UNCHANGED <<n, boundary, pieces, fed, pos, outcome, returns>>
+        /\ UNCHANGED <<n, boundary, pieces, fed, pos, outcome, returns, prior>>
 
 \* the reader hands over its next piece (at the end of the input it reports EOF: eof = fed = n)
 Feed == /\ phase = "running" /\ pieces # <<>>
         /\ fed' = fed + pieces[1] /\ pieces' = Tail(pieces)
-        /\ UNCHANGED <<n, boundary, pos, phase, outcome, returns>>
+        /\ UNCHANGED <<n, boundary, pos, phase, outcome, returns, prior>>
 
 \* success needs the whole message; the reader position is exactly its end
 ReturnOk == /\ phase = "running" /\ boundary > 0 /\ fed >= boundary
             /\ pos' = boundary /\ outcome' = "ok" /\ phase' = "returned" /\ returns' = returns + 1
-            /\ UNCHANGED <<n, boundary, pieces, fed>>
+            /\ UNCHANGED <<n, boundary, pieces, fed, prior>>
 
 \* an error may come at any time (malformed input, limit, EOF); nothing beyond the given bytes is consumed
 ReturnErr == /\ phase = "running"
              /\ \E q \in 0..fed : pos' = q
              /\ outcome' = "err" /\ phase' = "returned" /\ returns' = returns + 1
-             /\ UNCHANGED <<n, boundary, pieces, fed>>
+             /\ UNCHANGED <<n, boundary, pieces, fed, prior>>
 
 \* an incomplete input can only end in an error once everything has been fed (EOF)
 Next == Call \/ Feed \/ ReturnOk \/ ReturnErr
